@@ -73,6 +73,15 @@ def read_outputs(d):
     return files
 
 
+SWAP_LAST = {}
+for _t in ('i32', 'i64', 'f32', 'f64'):
+    for _a, _b in (('add', 'sub'), ('sub', 'add'), ('mul', 'add'), ('eq', 'ne'), ('ne', 'eq')):
+        SWAP_LAST['%s.%s' % (_t, _a)] = '%s.%s' % (_t, _b)
+for _t in ('i32', 'i64'):
+    for _a, _b in (('and', 'or'), ('or', 'xor'), ('xor', 'and'), ('shl', 'shr_u'), ('shr_u', 'shl'), ('lt_s', 'gt_s'), ('lt_u', 'gt_u'), ('gt_s', 'lt_s'), ('gt_u', 'lt_u')):
+        SWAP_LAST['%s.%s' % (_t, _a)] = '%s.%s' % (_t, _b)
+
+
 def make_ref(ch, m):
     """reference module: copy of m with some bodies changed / removed / duplicated; returns (bytes, set of identical bodies)"""
     import copy
@@ -86,6 +95,11 @@ def make_ref(ch, m):
         if k == 0:
             rs = r.types[f.type][1]
             keep.append(Func(f.type, f.locals, list(f.body) + ([('drop',), ('%s.const' % rs[0], 7)] if rs else [('nop',)])))
+        elif k == 1 and f.body and len(f.body[-1]) == 1 and f.body[-1][0] in SWAP_LAST:
+            # same length, same locals, different only in the very last byte in front of the final `end`
+            keep.append(Func(f.type, f.locals, list(f.body[:-1]) + [(SWAP_LAST[f.body[-1][0]],)]))
+        elif k == 1 and f.body and f.body[-1][0].endswith('.const') and f.body[-1][0][0] == 'i' and 0 <= f.body[-1][1] < 32:
+            keep.append(Func(f.type, f.locals, list(f.body[:-1]) + [(f.body[-1][0], f.body[-1][1] ^ 1)]))
         else:
             keep.append(f)
     r.funcs = keep
@@ -231,7 +245,7 @@ def gen_case(ch, params):
         mk = ch.pick(('c16_seq', 'c05_history', 'c04_calls', 'c03_ctrl', 'c16_seq'))
         m, script, meta = f1.MAKERS[mk](ch, {'nfuncs': 40, 'nargs': 1, 'nsteps': 10})
     else:
-        mk = ch.pick(('c05_history', 'c04_calls', 'c06_inst', 'c03_ctrl', 'c02_expr', 'c05_history'))
+        mk = ch.pick(('c05_history', 'c04_calls', 'c06_inst', 'c03_ctrl', 'c02_expr', 'c05_history', 'c16_seq'))
         m, script, meta = f1.MAKERS[mk](ch, {'nfuncs': 14, 'nargs': 3, 'nsteps': 40})
     wasm.validate(m)
     ni = m.n_imported_funcs()
@@ -389,6 +403,35 @@ def sched_task(wid, seed, params):
     return res
 
 
+def big_atomic_module(ch):
+    """hundreds of functions full of atomic accesses with distinct static offsets: each output file takes long enough to write
+    that several worker threads are inside the code generator at the same time"""
+    from ..wasm import Module, I32, I64
+    m = Module()
+    m.memory = (1, 1, True)
+    t32 = m.type_index((I32,), (I32,))
+    nf = ch.pick((150, 250, 400))
+    k = ch.pick((10, 20, 25))
+    ops = ['i32.atomic.rmw.add', 'i32.atomic.rmw.cmpxchg', 'i32.atomic.rmw16.xor_u', 'i32.atomic.load', 'i32.atomic.rmw8.or_u', 'i32.load']
+    for i in range(nf):
+        body = []
+        for j in range(k):
+            op = ops[(i + j) % len(ops)]
+            off = (4 * (i * k + j)) % 60000 + 4
+            al = 2 if ('rmw.' in op or op.endswith('.load')) else (1 if '16' in op else 0)
+            if 'cmpxchg' in op:
+                body += [('local.get', 0), ('i32.const', 0), ('i32.const', 1), (op, al, off), ('drop',)]
+            elif 'load' in op:
+                body += [('local.get', 0), (op, al, off), ('drop',)]
+            else:
+                body += [('local.get', 0), ('i32.const', 1), (op, al, off), ('drop',)]
+        body += [('local.get', 0)]
+        m.funcs.append(Func(t32, [], body))
+        m.exports.append((b'e%d' % i, 'func', i))
+    wasm.validate(m)
+    return m
+
+
 def tsan_task(wid, seed, params):
     """the unmodified translator built with ThreadSanitizer, splitting the functions over several files with several worker threads:
     no data race report, exit 0, and the same files as the plain build.  (vsched switches threads only at pthread calls; a race on
@@ -398,21 +441,42 @@ def tsan_task(wid, seed, params):
     for ci in range(params['ncases']):
         ch = Chooser(seed * 1000003 + ci)
         try:
-            mk, m, script, meta = gen_case(ch, dict(params, big=True))
+            if ci % 3 == 0:
+                mk, m = 'big_atomic', big_atomic_module(ch)
+            else:
+                mk, m, script, meta = gen_case(ch, dict(params, big=True))
         except wasm.Invalid:
             continue
         wb = wasm.encode(m)
-        opts = ['-f', str(ch.pick((1, 1, 2, 3))), '-t', str(ch.pick((2, 4, 8, 16)))]
+        opts = ['-f', str(ch.pick((1, 1, 2, 3)) if mk != 'big_atomic' else ch.pick((10, 20, 40))), '-t', str(ch.pick((2, 4, 8, 16)))]
         for o in ('-g', '-p', '-m'):
             if ch.below(4) == 1 and not (o == '-m' and any(FN_EXPORT.match(n) for n, kd, i in m.exports if kd == 'func')):
                 opts.append(o)
-        d0, tr0 = translate_to(wb, opts, 'plain')
+        seq_opts = [o for i, o in enumerate(opts) if o != '-t' and (i == 0 or opts[i - 1] != '-t')] + ['-t', '1']
+        d0, tr0 = translate_to(wb, seq_opts, 'plain')
         try:
             if tr0.rc != 0:
                 continue
             base = read_outputs(d0)
         finally:
             cexec.rm(d0)
+        # plain build, several workers, several attempts: what one worker writes must never depend on what the others are doing
+        bad0 = None
+        for attempt in range(4 if mk == 'big_atomic' else 1):
+            dp, trp = translate_to(wb, opts, 'plain')
+            try:
+                res['evaluations'] += 1
+                fp = read_outputs(dp) if trp.rc == 0 else None
+            finally:
+                cexec.rm(dp)
+            if fp != base:
+                diff = sorted(set(fp or {}) ^ set(base)) or [n for n in base if (fp or {}).get(n) != base[n]]
+                bad0 = ('threads-output', 'translation with several worker threads differs from the single-threaded one: %s' % diff[:4])
+                break
+        if bad0 and len(res['violations']) < 2:
+            res['violations'].append({'signature': 'c09:' + bad0[0], 'summary': bad0[1] + ' | options=%s [%s]' % (' '.join(opts), mk),
+                                      'replay': {'kind': 'c09-threads', 'module_hex': wb.hex(), 'options': opts}})
+            continue
         d, tr = translate_to(wb, opts, 'tsan')
         try:
             res['evaluations'] += 1
@@ -450,6 +514,23 @@ def dispatch(wid, seed, params):
 
 
 def replay(rp):
+    if rp.get('kind') == 'c09-threads':
+        wb = bytes.fromhex(rp['module_hex'])
+        opts = rp['options']
+        seq_opts = [o for i, o in enumerate(opts) if o != '-t' and (i == 0 or opts[i - 1] != '-t')] + ['-t', '1']
+        d0, tr0 = translate_to(wb, seq_opts, 'plain')
+        try:
+            base = read_outputs(d0) if tr0.rc == 0 else None
+        finally:
+            cexec.rm(d0)
+        for _ in range(25):          # depends on how the workers interleave: many cheap attempts
+            d, tr = translate_to(wb, opts, 'plain')
+            try:
+                if tr.rc != 0 or read_outputs(d) != base:
+                    return True
+            finally:
+                cexec.rm(d)
+        return False
     if rp.get('kind') == 'c09-tsan':
         wb = bytes.fromhex(rp['module_hex'])
         d0, tr0 = translate_to(wb, rp['options'], 'plain')
@@ -457,7 +538,7 @@ def replay(rp):
             base = read_outputs(d0) if tr0.rc == 0 else None
         finally:
             cexec.rm(d0)
-        for _ in range(3):          # a race report needs both accesses to happen close enough in time: a few attempts
+        for _ in range(12):         # a race report needs both accesses to happen close enough in time: several attempts
             d, tr = translate_to(wb, rp['options'], 'tsan')
             try:
                 if tr.rc != 0 or read_outputs(d) != base:
@@ -500,8 +581,9 @@ def replay(rp):
     if problems:
         return True
     if any(p.startswith('output differs') for p in rp.get('problems', [])):
-        # determinism findings: re-translate a few times with several thread counts
-        for t in (1, 2, 3, 8, 64, 2, 3):
+        # determinism findings: re-translate with several thread counts; a difference that depends on how the worker threads
+        # interleave does not show in every run, so many (cheap) attempts are made before the finding counts as not reproduced
+        for t in (1, 2, 3, 8, 64, 2, 3) * 6:
             o2 = [o for i, o in enumerate(rp['options']) if o != '-t' and (i == 0 or rp['options'][i - 1] != '-t')] + ['-t', str(t)]
             d2, tr2 = translate_to(wb, o2, 'plain', refb)
             try:
